@@ -1,8 +1,8 @@
 (** * SlabMass: the "mass conserving" slab temperature model (mass_conserving.cc:281-630) with a scalar
-    spreading and subducting velocity, without the optional spline, and the part of
-    Utilities::calculate_ridge_distance_and_spreading it needs (all four results). *)
+    subducting velocity, one spreading velocity per ridge coordinate, the optional monotone spline across the slab,
+    and the part of Utilities::calculate_ridge_distance_and_spreading it needs (all four results). *)
 From Coq Require Import ZArith List Bool.
-From WB Require Import Num Base Props World Kernels Features SlabModel.
+From WB Require Import Num Base Props World Kernels Features SlabModel Spline.
 Import ListNotations.
 
 Section SlabMass.
@@ -57,7 +57,8 @@ Section SlabMass.
     mc_density : F; mc_conductivity : F; mc_coupling : F; mc_forearc : F; mc_taper : F;
     mc_alpha : F; mc_cp : F; mc_kappa : F; mc_adiabatic : bool; mc_Tp : F; mc_Ts : F;
     mc_ridges : list (list pt2); mc_vels : list (list F); mc_sub : F;
-    mc_plate_reference : bool          (* reference model name = plate model (else half space model) *)
+    mc_plate_reference : bool;         (* reference model name = plate model (else half space model) *)
+    mc_spline : option nat             (* apply spline: number of points in spline *)
   }.
 
   (** the truncated plate-model heat content: [base - sum_{i<50} term_i] *)
@@ -180,7 +181,16 @@ Section SlabMass.
             else ((f2 * mc_conductivity m) * dTm) * fsqrt (eff / (kap * fpi)) in
           let top0 := fmin max_top (initial - bottom) in
           let top := if start_taper <? along then top0 * ferfc (taper_con * theta) else top0 in
-          temperature_analytic m top minT bgT old spreading_velocity eff adj
+          match mc_spline m with
+          | None => temperature_analytic m top minT bgT old spreading_velocity eff adj
+          | Some np =>
+              (* 2 np + 1 samples of the analytic profile over (-1, 1) max depth; the vector has one more entry, left at 0 *)
+              let interval := f1 / fofZ (Z.of_nat np) in
+              let sample (i : nat) := temperature_analytic m top minT bgT old spreading_velocity eff
+                                        (((fofZ (Z.of_nat i) * interval) - f1) * md) in
+              let ys := map sample (seq 0 (2 * np + 1)) ++ [f0] in
+              spline_eval ys (((adj / md) + f1) / interval)
+          end
         else old in
       apply_op (mc_op m) old temperature
     else old.
